@@ -180,6 +180,17 @@ func (cc *ckiCtrlr) less(root Item, ts int64) (uint32, error) {
 	return r.idx, err
 }
 
+// isTree tells whether root points to a tree in one of the known indexes: the index exists and the
+// root block holds at least one interval
+func (cc *ckiCtrlr) isTree(root Item) bool {
+	cki := cc.getIndex(root.IndexId)
+	if cki == nil {
+		return false
+	}
+	n, err := cki.count(root.Pos)
+	return err == nil && n > 0
+}
+
 func (cc *ckiCtrlr) removeItem(root Item) error {
 	cki := cc.getIndex(root.IndexId)
 	if cki == nil || root.IndexId == 0 {
